@@ -396,7 +396,7 @@ mod kani_harness {
     #[kani::proof] fn k_c03_module_header_from() { contract_module_header_from(&mut KaniCtx) }
     #[kani::proof] fn k_c06_max_restrictive() { contract_max_restrictive(&mut KaniCtx) }
     #[kani::proof] #[kani::unwind(40)] fn k_c07_well_known() { contract_well_known(&mut KaniCtx) }
-    #[kani::proof] #[kani::unwind(40)] fn k_c07_well_known_negative() { contract_well_known_negative(&mut KaniCtx) }
+    #[kani::proof] #[kani::unwind(40)] fn k_c07_unknown_arc_names() { contract_well_known_negative(&mut KaniCtx) }
 
     /// layout sentinels: Kani 0.68 mis-lays-out types padded by i128 alignment; every type a harness
     /// iterates over must have rustc's stride.
@@ -428,12 +428,12 @@ pub fn replay(unit: &str, bytes: Option<Vec<Vec<u8>>>) -> i32 {
         "k_c03_module_header_from" => go!(contract_module_header_from),
         "k_c06_max_restrictive" => go!(contract_max_restrictive),
         "k_c07_well_known" => go!(contract_well_known),
-        "k_c07_well_known_negative" => go!(contract_well_known_negative),
+        "k_c07_unknown_arc_names" => go!(contract_well_known_negative),
         "k_c04_add_assign" => go!(crate::intermediate::encoding_rules::per_visible::verif_hook::contract_add_assign),
         "k_c07_hex_to_bools" => go!(crate::lexer::verif_hook_util::contract_hex_to_bools),
         "k_c07_octet_to_bits" => go!(crate::validator::verif_hook_utils::contract_octet_to_bits),
         "k_c07_bits_to_octets" => go!(crate::validator::verif_hook_utils::contract_bits_to_octets),
-        "k_c07_bits_to_octets_long" => go!(crate::validator::verif_hook_utils::contract_bits_to_octets_long),
+        "k_c07_long_bits_to_octets" => go!(crate::validator::verif_hook_utils::contract_bits_to_octets_long),
         _ => { println!("REPLAY-ERROR unknown unit {unit}"); 2 }
     }
 }
